@@ -103,8 +103,8 @@ type fields struct {
 }
 
 func sha1KeyID(k []byte) []byte { h := sha1.Sum(k); return append([]byte{}, h[12:20]...) }
-func le64(v uint64) []byte { b := make([]byte, 8); binary.LittleEndian.PutUint64(b, v); return b }
-func le32(v uint32) []byte { b := make([]byte, 4); binary.LittleEndian.PutUint32(b, v); return b }
+func le64(v uint64) []byte      { b := make([]byte, 8); binary.LittleEndian.PutUint64(b, v); return b }
+func le32(v uint32) []byte      { b := make([]byte, 4); binary.LittleEndian.PutUint32(b, v); return b }
 
 func (f fields) show() string {
 	return "O:" + strings.Join([]string{vc.Hex(le64(f.salt)), vc.Hex(le64(f.sid)), vc.Hex(le64(f.msgid)), vc.Hex(le32(f.seq)), vc.Hex(f.body)}, ",")
@@ -270,8 +270,9 @@ func implUDes(data []byte) string {
 // (one connection per auth key, strictly one frame in flight).  So the dispatch on
 // isPacketEncrypted, both deserialisers and ReadMsg's own msg_id parity test are the tree's code.
 type rmSession struct {
-	srv net.Conn
-	t   transport.Transport
+	srv      net.Conn
+	t        transport.Transport
+	abridged bool
 }
 
 var rmSessions = map[string]*rmSession{}
@@ -283,8 +284,9 @@ func fatal(err error, what string) {
 	}
 }
 
-func readMsgSession(key []byte) *rmSession {
-	if s, ok := rmSessions[string(key)]; ok {
+func readMsgSessionMode(key []byte, abridged bool) *rmSession {
+	sk := string(key) + map[bool]string{false: "|i", true: "|a"}[abridged]
+	if s, ok := rmSessions[sk]; ok {
 		return s
 	}
 	ln, err := net.Listen("tcp", "127.0.0.1:0")
@@ -297,27 +299,49 @@ func readMsgSession(key []byte) *rmSession {
 		}
 		ch <- c
 	}()
-	t, err := transport.NewTransport(&informator{key: key}, transport.TCPConnConfig{Ctx: context.Background(), Host: ln.Addr().String()}, mode.Intermediate)
+	variant, want := mode.Intermediate, []byte{0xee, 0xee, 0xee, 0xee}
+	if abridged {
+		variant, want = mode.Abridged, []byte{0xef}
+	}
+	t, err := transport.NewTransport(&informator{key: key}, transport.TCPConnConfig{Ctx: context.Background(), Host: ln.Addr().String()}, variant)
 	fatal(err, "transport.NewTransport")
 	srv := <-ch
 	if srv == nil {
 		fatal(fmt.Errorf("no connection"), "accept")
 	}
-	ann := make([]byte, 4)
+	ann := make([]byte, len(want))
 	_, err = io.ReadFull(srv, ann)
 	fatal(err, "mode announcement")
-	if !bytes.Equal(ann, []byte{0xee, 0xee, 0xee, 0xee}) {
+	if !bytes.Equal(ann, want) {
 		fatal(fmt.Errorf("%x", ann), "unexpected mode announcement")
 	}
 	ln.Close()
-	s := &rmSession{srv, t}
-	rmSessions[string(key)] = s
+	s := &rmSession{srv, t, abridged}
+	rmSessions[sk] = s
 	return s
 }
 
-func implDispatch(key, data []byte) string {
-	s := readMsgSession(key)
-	_, err := s.srv.Write(cat(le32(uint32(len(data))), data))
+func readMsgSession(key []byte) *rmSession { return readMsgSessionMode(key, false) }
+
+// frame as the server writes it: intermediate = 4-byte length; abridged = length/4 in one byte
+// (or 0x7f + three bytes), only for lengths that are a multiple of 4
+func (s *rmSession) frame(data []byte) []byte {
+	if !s.abridged {
+		return cat(le32(uint32(len(data))), data)
+	}
+	if len(data)%4 != 0 {
+		fatal(fmt.Errorf("%d bytes", len(data)), "abridged frame must be a multiple of 4")
+	}
+	w := len(data) / 4
+	if w < 0x7f {
+		return cat([]byte{byte(w)}, data)
+	}
+	return cat([]byte{0x7f, byte(w), byte(w >> 8), byte(w >> 16)}, data)
+}
+
+func implDispatchMode(key, data []byte, abridged bool) string {
+	s := readMsgSessionMode(key, abridged)
+	_, err := s.srv.Write(s.frame(data))
 	fatal(err, "write frame")
 	var msg messages.Common
 	p, _ := vc.Catch(func() { msg, err = s.t.ReadMsg() })
@@ -333,6 +357,8 @@ func implDispatch(key, data []byte) string {
 	}
 	return "O:" + kind + "," + vc.Hex(le64(uint64(msg.GetMsgID()))) + "," + vc.Hex(msg.GetMsg())
 }
+
+func implDispatch(key, data []byte) string { return implDispatchMode(key, data, false) }
 
 func implIsEnc(data []byte) string {
 	if transport.VerifIsPacketEncrypted(data) {
@@ -461,7 +487,14 @@ func (g *gen) c03Case(r *vc.Rng, key []byte, n int, withModel bool) {
 		}
 		g.emit(id, []string{"sopen", id, "1", kh, vc.Hex(pkt)}, rs, "-", "spec-open")
 	}
-	// server -> client
+	// server -> client (the x = 8 schedule reads 136 key bytes; with a shorter key the client refuses everything)
+	if len(key) < 136 {
+		pkt := cat(refKeyID(key), r.Bytes(16), r.Bytes(16*(1+r.Intn(4))))
+		impl = implOpen(key, pkt)
+		id = g.id("open")
+		g.emitM(withModel, id, []string{"open", id, "1", kh, vc.Hex(pkt)}, impl, mustRefuse(impl), fmt.Sprintf("open with a %d-byte key", len(key)))
+		return
+	}
 	sp := r.Intn(8) != 0
 	fs := randFields(r, n, sp)
 	if !sp {
@@ -585,6 +618,57 @@ func genC03(tier string, g *gen) {
 			ki++
 		}
 	}
+	// key lengths other than 256 that the theorems allow (>= 128 to seal, >= 136 to open)
+	for _, kl := range []int{128, 135, 136, 137, 200, 255, 257, 300} {
+		k := r.Bytes(kl)
+		for _, n := range []int{0, 5, 16, 77} {
+			g.c03Case(r, k, n, true)
+		}
+	}
+	// a key the send path can not use: Encrypted.Serialize panics in generateAESIGE at HEAD exactly as
+	// the model says (seal_client = Panic); not a C03 case (the property is about 256-byte keys), only
+	// kept in step with the model
+	for _, kl := range []int{0, 1, 127} {
+		k := r.Bytes(kl)
+		f := randFields(r, 8, false)
+		id := g.id("sealshort")
+		g.emit(id, []string{"seal", id, vc.Hex(k), vc.Hex(le64(f.salt)), vc.Hex(le64(f.sid)), vc.Hex(le64(f.msgid)), vc.Hex(le32(f.seq)), "0", vc.Hex(f.body)},
+			implSeal(k, f, false), "-", fmt.Sprintf("Encrypted.Serialize with a %d-byte key", kl))
+	}
+	// model-compared bodies beyond 1041 bytes, up to and around 2^16
+	big := []int{1042, 4111, 65519}
+	if thorough {
+		big = []int{1042, 2000, 4111, 9999, 20000, 40001, 65519, 65520, 65536, 70000}
+	}
+	for _, n := range big {
+		g.c03Case(r, keys[ki%len(keys)], n, true)
+		ki++
+	}
+	// isPacketEncrypted: first 8 bytes with 1..7 leading zero bytes, 4 zero bytes followed by non-zero ones
+	// (a Uint32(data[:4]) != 0 regression), 4 non-zero then zero, zero id followed by non-zero data, short data
+	for z := 0; z <= 8; z++ {
+		for rep := 0; rep < 2; rep++ {
+			d := r.Bytes(8 + r.Intn(40))
+			for i := 0; i < z; i++ {
+				d[i] = 0
+			}
+			for i := z; i < 8; i++ {
+				d[i] |= 1
+			}
+			if rep == 1 && z < 8 { // exactly one non-zero byte, at position z
+				for i := z + 1; i < 8; i++ {
+					d[i] = 0
+				}
+			}
+			id := g.id("isenc")
+			g.emit(id, []string{"isenc", id, vc.Hex(d)}, implIsEnc(d), map[bool]string{true: "ok", false: "bad:isPacketEncrypted wrong on a key id with leading zero bytes"}[implIsEnc(d) == map[bool]string{true: "O:00", false: "O:01"}[z == 8]],
+				fmt.Sprintf("isPacketEncrypted, %d leading zero bytes", z))
+		}
+	}
+	for _, d := range [][]byte{{1, 2, 3, 4, 0, 0, 0, 0, 9}, {0, 0, 0, 0, 0, 0, 0, 1}, {0, 0, 0, 0, 0, 0, 0, 0, 1, 1}, {1, 1, 1, 1, 1, 1, 1}, {}} {
+		id := g.id("isenc")
+		g.emit(id, []string{"isenc", id, vc.Hex(d)}, implIsEnc(d), "-", "isPacketEncrypted corner")
+	}
 	nsmall := 60
 	if thorough {
 		nsmall = 1500
@@ -599,17 +683,29 @@ func genC03(tier string, g *gen) {
 	g.parityCases(r, keys, map[bool]int{false: 1, true: 8}[thorough])
 	g.seqCases(r, keys, map[bool]int{false: 3, true: 18}[thorough], false)
 	// the real ReadMsg on valid packets of both kinds
-	for i := 0; i < 12; i++ {
+	for i := 0; i < 24; i++ {
 		k := keys[i%len(keys)]
-		f := randFields(r, r.Intn(60), true)
+		ab := i%4 >= 2
+		f := randFields(r, 4*r.Intn(16), true)
+		if i%8 == 7 {
+			f.body = r.Bytes(4 * (130 + r.Intn(200))) // abridged: length needs the 0x7f + 3 byte form
+		}
 		var data []byte
+		want := "O:00,"
 		if i%2 == 0 {
 			data = refSeal(false, k, f, padFor(r, len(f.body)))
+			want = "O:01,"
 		} else {
 			data = vc.UnHex(implUSer(f.msgid, f.body)[2:])
 		}
+		want += vc.Hex(le64(f.msgid)) + "," + vc.Hex(f.body)
+		impl := implDispatchMode(k, data, ab)
+		direct := "ok"
+		if impl != want {
+			direct = "bad:valid server message refused or altered"
+		}
 		id := g.id("disp")
-		g.emit(id, []string{"disp", id, vc.Hex(k), vc.Hex(data)}, implDispatch(k, data), "-", "ReadMsg dispatch")
+		g.emit(id, []string{"disp", id, vc.Hex(k), vc.Hex(data)}, impl, direct, "ReadMsg, "+map[bool]string{false: "intermediate", true: "abridged"}[ab]+" mode")
 	}
 }
 
@@ -629,7 +725,7 @@ func (g *gen) parityCases(r *vc.Rng, keys [][]byte, reps int) {
 			for low := uint64(0); low < 4; low++ {
 				key := keys[(bi+rep)%len(keys)]
 				kh := vc.Hex(key)
-				f := randFields(r, r.Intn(40), true)
+				f := randFields(r, 4*r.Intn(10), true) // multiple of 4: also framed in abridged mode
 				f.msgid = base&^3 | low
 				server := low&1 == 1
 				what := fmt.Sprintf("msg_id %016x (bit63=%d low bits %02b)", f.msgid, f.msgid>>63, low)
@@ -652,12 +748,15 @@ func (g *gen) parityCases(r *vc.Rng, keys [][]byte, reps int) {
 				impl = implUDes(un)
 				id = g.id("parity")
 				g.emit(id, []string{"udes", id, vc.Hex(un)}, impl, verdict(impl, "O:"+vc.Hex(le64(f.msgid))+","+vc.Hex(f.body)), "DeserializeUnencrypted, "+what)
-				impl = implDispatch(key, pkt)
-				id = g.id("parity")
-				g.emit(id, []string{"disp", id, kh, vc.Hex(pkt)}, impl, verdict(impl, "O:01,"+vc.Hex(le64(f.msgid))+","+vc.Hex(f.body)), "ReadMsg (encrypted), "+what)
-				impl = implDispatch(key, un)
-				id = g.id("parity")
-				g.emit(id, []string{"disp", id, kh, vc.Hex(un)}, impl, verdict(impl, "O:00,"+vc.Hex(le64(f.msgid))+","+vc.Hex(f.body)), "ReadMsg (unencrypted), "+what)
+				for _, ab := range []bool{false, true} {
+					mname := map[bool]string{false: "intermediate", true: "abridged"}[ab]
+					impl = implDispatchMode(key, pkt, ab)
+					id = g.id("parity")
+					g.emit(id, []string{"disp", id, kh, vc.Hex(pkt)}, impl, verdict(impl, "O:01,"+vc.Hex(le64(f.msgid))+","+vc.Hex(f.body)), "ReadMsg "+mname+" (encrypted), "+what)
+					impl = implDispatchMode(key, un, ab)
+					id = g.id("parity")
+					g.emit(id, []string{"disp", id, kh, vc.Hex(un)}, impl, verdict(impl, "O:00,"+vc.Hex(le64(f.msgid))+","+vc.Hex(f.body)), "ReadMsg "+mname+" (unencrypted), "+what)
+				}
 			}
 		}
 	}
@@ -689,7 +788,7 @@ func seqRun(steps []seqStep, viaReadMsg bool) []*seqKept {
 		k := &seqKept{changedAt: -1, inputAt: -1, orig: append([]byte(nil), st.pkt...), buf: append([]byte(nil), st.pkt...)}
 		if viaReadMsg {
 			s := readMsgSession(st.key)
-			_, err := s.srv.Write(cat(le32(uint32(len(k.buf))), k.buf))
+			_, err := s.srv.Write(s.frame(k.buf))
 			fatal(err, "write frame")
 			var msg messages.Common
 			p, _ := vc.Catch(func() { msg, err = s.t.ReadMsg() })
@@ -984,6 +1083,164 @@ func (g *gen) headerAlterations(r *vc.Rng, kh string, key, pkt []byte, thorough 
 	}
 }
 
+// A key holder's packet sealed under a WRONG msg_key: key and iv are derived from mk' (the right
+// msg_key with one byte / bit changed) and the plaintext is encrypted with them, so the client's
+// decryption yields the intact plaintext and ONLY the final comparison of SHA1(..)[4:20] with the
+// carried msg_key can refuse it - a comparison of a part of msg_key would let it through.
+func wrongMsgKeyPackets(key []byte, f fields, pad []byte) (pkts [][]byte, what []string) {
+	plain := refPlain(f, uint32(len(f.body)))
+	right := refMsgKey(plain)
+	for _, v := range []struct {
+		i int
+		m byte
+		s string
+	}{{15, 0x01, "last bit"}, {15, 0xa5, "last byte"}, {15, 0x80, "top bit of the last byte"}, {0, 0x01, "first byte, low bit"}, {0, 0xff, "first byte"},
+		{7, 0x10, "byte 7"}, {8, 0x01, "byte 8"}, {14, 0x40, "byte 14"}} {
+		mk := append([]byte(nil), right...)
+		mk[v.i] ^= v.m
+		k, iv := refKIV(key, mk, 8)
+		pkts = append(pkts, cat(refKeyID(key), mk, refIGE(k, iv, cat(plain, pad), true)))
+		what = append(what, "sealed under msg_key differing in its "+v.s)
+	}
+	return
+}
+
+// a key holder's packet whose header declares length L (msg_key made to match whenever the slice exists)
+func declaredLenPacket(key []byte, f fields, pad []byte, L int64) (pkt []byte, consistent bool) {
+	plain := refPlain(f, uint32(int32(L)))
+	mkLen := len(plain)
+	all := cat(plain, pad)
+	if 32+L >= 0 && 32+L <= int64(len(all)) {
+		mkLen = int(32 + L)
+	}
+	mk := refMsgKey(all[:mkLen])
+	k, iv := refKIV(key, mk, 8)
+	return cat(refKeyID(key), mk, refIGE(k, iv, all, true)), L >= 0 && L <= int64(len(all)-32)
+}
+
+// lengths that a truncating cast (uint8 / uint16 / 24 bit / int32 sign) would confuse with the true one
+func congruentLengths(n int) []int64 {
+	t := int64(n)
+	return []int64{t + 1<<8, t - 1<<8, t + 1<<16, t - 1<<16, t + 1<<24, t - 1<<24, t + 1<<31 - 1<<32, t%256 + 1<<8, t + 3<<16, t + 1<<30}
+}
+
+// damaged / forged packets near and above 2^16 bytes; the implementation sees all of them, the
+// model the first [nmodel]
+func (g *gen) c04Big(r *vc.Rng, key []byte, n int, nmodel int) {
+	kh := vc.Hex(key)
+	f := randFields(r, n, true)
+	pad := padFor(r, n)
+	pkt := refSeal(false, key, f, pad)
+	use := func() bool { nmodel--; return nmodel >= 0 }
+	g.c04Open("big", kh, key, pkt, func(impl string) string {
+		if strings.HasPrefix(impl, f.show()+",") {
+			return "ok"
+		}
+		return "bad:valid packet not opened to the sealed fields"
+	}, fmt.Sprintf("valid, %d-byte packet", len(pkt)), use())
+	bits := []int{0, 63, 64, 191, 192, 24*8 + 5, len(pkt)*4 + 3, 8 * 65535, 8*65536 + 1, 8*(len(pkt)-16) + 7, 8*len(pkt) - 1}
+	for i := 0; i < 16; i++ {
+		bits = append(bits, r.Intn(8*len(pkt)))
+	}
+	for _, b := range bits {
+		if b >= 8*len(pkt) {
+			continue
+		}
+		d := append([]byte(nil), pkt...)
+		d[b/8] ^= 1 << uint(b%8)
+		oracle := refuseOrSame(f, pkt[8:24])
+		if b < 64 {
+			oracle = mustRefuse
+		}
+		g.c04Open("big", kh, key, d, oracle, fmt.Sprintf("bitflip bit=%d of %d-byte packet", b, len(pkt)), use())
+	}
+	for _, l := range []int{len(pkt) - 1, len(pkt) - 16, len(pkt) - 32, 65536 + 24, 65536 + 23, 65536, 65535, 65536 - 8, 40000, 40, 39, 24} {
+		if l < len(pkt) && l >= 0 {
+			g.c04Open("big", kh, key, pkt[:l], mustRefuse, fmt.Sprintf("truncated to %d of %d", l, len(pkt)), use())
+		}
+	}
+	ls := append(congruentLengths(n), int64(n)-1, int64(n)+1, int64(n)+int64(len(pad))+1, int64(n)%65536, -1)
+	for _, L := range ls {
+		if L == int64(n) {
+			continue
+		}
+		d, ok := declaredLenPacket(key, f, pad, L)
+		oracle := mustRefuse
+		if ok {
+			oracle = noPanic
+		}
+		g.c04Open("big", kh, key, d, oracle, fmt.Sprintf("declared length %d, real %d", L, n), use())
+	}
+	ps, ws := wrongMsgKeyPackets(key, f, pad)
+	for i := range ps[:3] {
+		g.c04Open("big", kh, key, ps[i], mustRefuse, ws[i]+fmt.Sprintf(" (%d-byte packet)", len(pkt)), use())
+	}
+	g.c04Open("big", kh, key, cat(refKeyID(key), r.Bytes(16), r.Bytes(len(pkt)-24)), mustRefuse, fmt.Sprintf("garbage of %d bytes under the right key id", len(pkt)), use())
+}
+
+// receive path with absent / short / odd-length auth keys: packets that carry exactly that key's id
+// (SHA1(key)[12:20]; for the empty key that id is public), through DeserializeEncrypted and through the
+// real transport.ReadMsg.  Below 136 bytes the client must refuse (it can not derive the x = 8 schedule);
+// from 136 bytes on a packet sealed by the reference server must open.
+func (g *gen) shortKeyCases(r *vc.Rng) {
+	for _, kl := range []int{0, 1, 127, 128, 135, 136, 137, 255, 257} {
+		var key []byte
+		if kl > 0 {
+			key = r.Bytes(kl)
+		}
+		kh := vc.Hex(key)
+		var pkts [][]byte
+		var wants []string
+		for _, cl := range []int{16, 32, 48, 64} {
+			pkts = append(pkts, cat(refKeyID(key), r.Bytes(16), r.Bytes(cl)))
+			wants = append(wants, "E")
+		}
+		pkts = append(pkts, cat(refKeyID(key), r.Bytes(16), r.Bytes(37)), cat(refKeyID(key), r.Bytes(3)), refKeyID(key))
+		wants = append(wants, "E", "E", "E")
+		if kl >= 136 {
+			for _, n := range []int{0, 12, 40} {
+				f := randFields(r, n, true)
+				pkts = append(pkts, refSeal(false, key, f, padFor(r, n)))
+				wants = append(wants, f.show())
+			}
+		}
+		for i, pkt := range pkts {
+			what := fmt.Sprintf("%d-byte auth key, %d-byte packet carrying that key's id", kl, len(pkt))
+			oracle := mustRefuse
+			if wants[i] != "E" {
+				w := wants[i]
+				oracle = func(impl string) string {
+					if strings.HasPrefix(impl, w+",") {
+						return "ok"
+					}
+					return "bad:valid packet not opened to the sealed fields"
+				}
+			}
+			g.c04Open("keylen", kh, key, pkt, oracle, "DeserializeEncrypted, "+what, true)
+			if len(pkt) == 4 {
+				continue
+			}
+			for _, ab := range []bool{false, true} {
+				if ab && len(pkt)%4 != 0 {
+					continue
+				}
+				impl := implDispatchMode(key, pkt, ab)
+				direct := "ok"
+				switch {
+				case impl == "P":
+					direct = "bad:panic"
+				case wants[i] == "E" && impl != "E":
+					direct = "bad:damaged packet accepted"
+				case wants[i] != "E" && !strings.HasPrefix(impl, "O:01,"):
+					direct = "bad:valid server message refused or altered"
+				}
+				id := g.id("keylen")
+				g.emit(id, []string{"disp", id, kh, vc.Hex(pkt)}, impl, direct, "ReadMsg "+map[bool]string{false: "intermediate", true: "abridged"}[ab]+", "+what)
+			}
+		}
+	}
+}
+
 func (g *gen) c04Base(r *vc.Rng, key []byte, n int, tier string, modelBudget *int) {
 	kh := vc.Hex(key)
 	thorough := tier == "thorough"
@@ -1007,6 +1264,19 @@ func (g *gen) c04Base(r *vc.Rng, key []byte, n int, tier string, modelBudget *in
 	}, fmt.Sprintf("valid len=%d", n), use(blocks))
 	// multi-byte alterations of the authenticated header fields
 	g.headerAlterations(r, kh, key, pkt, thorough, use)
+	// auth_key_id differing in ONE byte while the key is right
+	for i := 0; i < 8; i++ {
+		for _, m := range []byte{1, 0xff, byte(1 + r.Intn(254))} {
+			d := append([]byte(nil), pkt...)
+			d[i] += m
+			g.c04Open("keyid", kh, key, d, mustRefuse, fmt.Sprintf("auth_key_id byte %d + %d (%d-byte packet)", i, m, len(pkt)), use(1))
+		}
+	}
+	// re-sealed under a wrong msg_key: only the final msg_key comparison can refuse these
+	wp, ww := wrongMsgKeyPackets(key, f, pad)
+	for i := range wp {
+		g.c04Open("wrongmk", kh, key, wp[i], mustRefuse, fmt.Sprintf("%s (%d-byte packet)", ww[i], len(pkt)), use(blocks))
+	}
 	// every single-bit flip (all bits for packets <= 128 bytes, sampled above)
 	nbits := len(pkt) * 8
 	for b := 0; b < nbits; b++ {
@@ -1019,7 +1289,11 @@ func (g *gen) c04Base(r *vc.Rng, key []byte, n int, tier string, modelBudget *in
 		if b < 64 {
 			cost = 1
 		}
-		g.c04Open("flip", kh, key, d, refuseOrSame(f, pkt[8:24]), fmt.Sprintf("bitflip bit=%d of %d-byte packet", b, len(pkt)), use(cost))
+		oracle := refuseOrSame(f, pkt[8:24])
+		if b < 64 { // a flipped key id must be REFUSED: a message only if the key id matches
+			oracle = mustRefuse
+		}
+		g.c04Open("flip", kh, key, d, oracle, fmt.Sprintf("bitflip bit=%d of %d-byte packet", b, len(pkt)), use(cost))
 	}
 	// every truncation length, including shorter than the 24-byte header
 	for l := 0; l < len(pkt); l++ {
@@ -1050,21 +1324,14 @@ func (g *gen) c04Base(r *vc.Rng, key []byte, n int, tier string, modelBudget *in
 	for d := int64(n) - 33; d <= int64(n)+33; d++ {
 		decl = append(decl, d)
 	}
+	decl = append(decl, congruentLengths(n)...)
 	for _, L := range decl {
 		if L == int64(n) {
 			continue
 		}
-		plain := refPlain(f, uint32(int32(L)))
-		mkLen := len(plain)
-		all := cat(plain, pad)
-		if 32+L >= 0 && 32+L <= int64(len(all)) {
-			mkLen = int(32 + L)
-		}
-		mk := refMsgKey(all[:mkLen])
-		k, iv := refKIV(key, mk, 8)
-		d := cat(refKeyID(key), mk, refIGE(k, iv, all, true))
+		d, consistent := declaredLenPacket(key, f, pad, L)
 		oracle := mustRefuse
-		if L >= 0 && L <= int64(total-32) {
+		if consistent {
 			oracle = noPanic // consistent with the data the holder sealed: outcome decided by the model
 		}
 		g.c04Open("len", kh, key, d, oracle, fmt.Sprintf("declared length %d, real %d, decrypted %d", L, n, total), use(blocks))
@@ -1075,7 +1342,7 @@ func genC04(tier string, g *gen) {
 	r := vc.NewRng(vc.Seed()).Fork(4)
 	thorough := tier == "thorough"
 	keys := structuredKeys(r, 2)
-	budget := 3300 // number of cases also run through the extracted model
+	budget := 2700 // number of cases also run through the extracted model
 	lens := []int{0, 40, 200, 3, 16, 72}
 	if thorough {
 		budget = 40000
@@ -1088,6 +1355,7 @@ func genC04(tier string, g *gen) {
 		}
 		return false
 	}
+	g.shortKeyCases(r)
 	key := keys[0]
 	kh := vc.Hex(key)
 	// the header alone and fragments of it under the right key id
@@ -1145,6 +1413,9 @@ func genC04(tier string, g *gen) {
 	}
 	g.parityCases(r, keys, map[bool]int{false: 1, true: 8}[thorough])
 	g.seqCases(r, keys, map[bool]int{false: 4, true: 24}[thorough], true)
+	// near and above 2^16 bytes
+	g.c04Big(r, keys[1], 65536-56-3, map[bool]int{false: 3, true: 80}[thorough])
+	g.c04Big(r, keys[0], 70001, map[bool]int{false: 1, true: 80}[thorough])
 	// fault enumeration around valid packets; the model follows as far as its budget reaches
 	for i, n := range lens {
 		g.c04Base(r, keys[i%len(keys)], n, tier, &budget)
